@@ -777,7 +777,7 @@ def families():
         pk = byname[skn]
         for k, (pos, what) in enumerate(symbytes(pk)):
             fam.append(dict(name="symb_%s_%d" % (skn, pos), body="p_parse::parse_symbyte::<_, skel_gen::%s, %d>" % (camel(skn), pos),
-                            props=["C01", "C02", "C18"], tier='thorough', est=200, timeout=3600, mem_gb=24,
+                            props=["C01", "C02", "C18"], tier='thorough', est=200, timeout=1200, mem_gb=24,
                             bound="DNSSector::parse vs the policy oracle with byte %d (%s) taking all 256 values | skeleton %s (%d bytes): %s; label characters concrete, other payload symbolic, error paths explored" % (pos, what, pk.name, len(pk.cells), pk.desc),
                             funcs=["DNSSector::parse", "DNSSector::parse_rr", "DNSSector::parse_opt", "Compress::check_compressed_name", "DNSSector::check_uncompressed_name"],
                             unwind=len(pk.cells) + 12, fs=max(300, len(pk.cells) + 40)))
